@@ -52,7 +52,7 @@ class Z3Enc:
     def uf(self, name, n):
         k = (name, n)
         if k not in self.ufs:
-            self.ufs[k] = z3.Function(name + ("%d" % n if n != 1 else ""), *([z3.RealSort()] * (n + 1)))
+            self.ufs[k] = z3.Function("uf_" + name + ("%d" % n if n != 1 else ""), *([z3.RealSort()] * (n + 1)))
         return self.ufs[k]
 
     def enc(self, root):
